@@ -91,15 +91,29 @@ def run(ctx):
             injects.append(c); cases.append(c)
     # ---- (3) frozen marginals through the public drivers (const and function paths)
     frozen_cases = []
+    # every non-empty proper frozen subset x both drivers (scalars -> precomputed-coefficient path, functions -> time-dependent path)
+    # for 2 and 3 populations, every single frozen population for 4 and 5, on every run; random subsets on top
+    plan = []
+    for d in (2, 3):
+        for r in range(1, d):
+            for fzs in itertools.combinations(range(d), r):
+                for md in (None, 'const'):
+                    plan.append((d, set(fzs), md))
+    for d in (4, 5):
+        for f in range(d):
+            plan.append((d, {f}, 'const'))
     for d in range(2, 6):
-        for rep in range(ctx.pick(3, 200)):
+        for rep in range(ctx.pick(1, 200)):
+            plan.append((d, None, 'rand'))
+    for d, fz_plan, md_plan in plan:
+        if True:
             n = {2: rng.randint(5, 8), 3: rng.randint(4, 6), 4: 4, 5: 3}[d]
             if d == 5 and not ctx.quick:
                 n = rng.choice([3, 4])
             g = numgen.grid(rng, n, kind=rng.choice(['uniform', 'exp', 'quad', 'random']))
             pops = [numgen.pop(rng, d) for _ in range(d)]
             nf = rng.randint(1, d - 1)
-            fz = set(rng.sample(range(d), nf))
+            fz = set(rng.sample(range(d), nf)) if fz_plan is None else fz_plan
             for i, p in enumerate(pops):
                 p['nu'] = numgen.logdy(rng, 0.1, 10)
                 p['gamma'] = lib.dyadic(rng, -8, 8, 3)
@@ -110,7 +124,7 @@ def run(ctx):
             tf = rng.choice([1 / 64, 1 / 256])
             mv = max(max(0.25 / p['nu'], sum(p['ms']), abs(p['gamma']) * 0.25) for p in pops)
             T = numgen.logdy(rng, 1.2 * tf / mv, 2.8 * tf / mv)
-            mode = rng.choice([None, 'const']) if d <= 3 else 'const'
+            mode = (rng.choice([None, 'const']) if d <= 3 else 'const') if md_plan == 'rand' else md_plan
             c = {'kind': 'driver', 'shape': [n] * d, 'grid': g, 'pops': pops, 'theta0': lib.dyadic(rng, 0.25, 4, 4), 'tf': tf, 'delj': False,
                  'T': T, 'phi': numgen.density(rng, n ** d, kind='random'), 'as_func': mode, 'theta_slope': 0.0, '_frozen': sorted(fz)}
             frozen_cases.append(c); cases.append(c)
